@@ -73,4 +73,6 @@ c1875a2 C14
 6112cb1 C19
 c2be3c9 C07
 2c9ca16 C10
+51cc715 C09
+e57b5cb C14
 LIST
